@@ -487,5 +487,19 @@ func genRegistry(p *packages.Package) []byte {
 		fmt.Fprintf(&b, "\t%q: func() model.Updater { return new(model.%s) },\n", n, n)
 	}
 	b.WriteString("}\n")
+	// constants of the enumeration types the harness needs to enumerate
+	for _, tn := range []string{"FeatureTypeType", "FunctionType"} {
+		fmt.Fprintf(&b, "\n// %sValues lists every constant of type model.%s.\nvar %sValues = []model.%s{\n", tn, tn, tn, tn)
+		for _, name := range scope.Names() {
+			c, ok := scope.Lookup(name).(*types.Const)
+			if !ok || !c.Exported() {
+				continue
+			}
+			if n, ok := c.Type().(*types.Named); ok && n.Obj().Name() == tn && n.Obj().Pkg() == p.Types {
+				fmt.Fprintf(&b, "\tmodel.%s,\n", name)
+			}
+		}
+		b.WriteString("}\n")
+	}
 	return b.Bytes()
 }
